@@ -22,6 +22,7 @@ TRUSTED = ['program level: the reference evaluator Spec/MacroLang.v (TeX rules w
 ASSUMPTIONS = ['normal form NF-macro of DESIGN section 9: no macro whose name starts with "if" other than conditionals inside branches; '
                'definitions only outside conditionals']
 CASE_TIMEOUT = 20
+SKIP_WHEN_MODEL_GIVES_UP = True
 
 # ---- (a) API level ------------------------------------------------------------------------------
 # item trees: ['tok', n] | ['newif', tokwire] | ['cond', name, first, [[is_else, seg], ...]]
